@@ -409,7 +409,7 @@ def run_main(pid, tier, seed, replay=None):
     mc_res = []
     for mc in P["mc"].get(tier, P["mc"].get("quick", [])):
         r = vk.run_mc(mc["module"], mc["cfg"], workers=mc.get("workers", 8), timeout=mc.get("timeout", 900),
-                      overrides=mc.get("overrides"), tag=mc.get("tag"), heap=mc.get("heap", "12g"))
+                      overrides=mc.get("overrides"), tag=mc.get("tag"), heap=mc.get("heap", "12g"), simulate=mc.get("simulate"))
         expect = mc.get("expect_violation", False)
         vk.log(f"[mc] {r['cfg']}: {r['states']} distinct states, {r['transitions']} transitions, "
                f"{'VIOLATED ' + str(r['violated']) if r['violated'] else ('ok' if r.get('complete', True) else 'no violation within the time bound (not exhaustive)')} ({r['wall']}s){' [sensitivity run]' if expect else ''}")
@@ -677,7 +677,9 @@ SEARCH_T = [mc("MC_Search.cfg", "search_theorems_1tree_3builds", {"MaxBuilds": "
             mc("MC_Search.cfg", "sens_query_routed_to_the_wrong_side", {"QueryFlip": "TRUE"}, expect=True)]
 FOREST_Q = [mcf("forest_1tree_2builds")]
 FOREST_T = [mcf("forest_1tree_3builds", {"MaxBuilds": "3"}),
-            mcf("forest_2trees", {"Reqs": "{0, 2}", "Toks": "{\"a\"}"}, timeout=1500)]
+            mcf("forest_2trees", {"Reqs": "{0, 2}", "Toks": "{\"a\"}"}, timeout=1500),
+            dict(mcf("forest_2trees_2tokens_4builds_random_walks", {"Reqs": "{0, 2, 3}", "Caps": "{1, 2}", "MaxBuilds": "4", "Ids": "{1, 2, 3, 4}"}, timeout=900),
+                 simulate=dict(num=4000, depth=150))]
 
 MAIN = {
     "C01": dict(
